@@ -301,4 +301,36 @@ MUTANTS = {
         "props": ["C11"],
         "edits": [(ST, '        return ", ".join(elems) if elems else "()"', '        return ", ".join(elems) if elems else ""')],
     },
+    "c12_kwonly_separator": {
+        "props": ["C12"],
+        "edits": [(ST, "        elif kind == inspect.Parameter.KEYWORD_ONLY and render_kw_only_separator:", "        elif kind == inspect.Parameter.KEYWORD_ONLY and render_kw_only_separator and len(formatted_params) > 0:")],
+    },
+    "c12_posonly_slash_dropped": {
+        "props": ["C12"],
+        "edits": [(ST, "    if render_pos_only_separator:\n        # There were only positional-only parameters, hence the\n        # flag was not reset to 'False'\n        formatted_params.append(\"/\")", "    if render_pos_only_separator and False:\n        formatted_params.append(\"/\")")],
+    },
+    "c12_default_omitted_when_annotated": {
+        "props": ["C12"],
+        "edits": [(ST, "    if param.default is not inspect.Parameter.empty:\n        formatted = \"{} = ...\".format(formatted)", "    if param.default is not inspect.Parameter.empty and param.annotation is inspect.Parameter.empty:\n        formatted = \"{} = ...\".format(formatted)")],
+    },
+    "c12_decorator_wrong_kind": {
+        "props": ["C12"],
+        "edits": [(ST, "        if isinstance(func_or_desc, classmethod):\n            return FunctionKind.CLASS\n        elif isinstance(func_or_desc, staticmethod):\n            return FunctionKind.STATIC", "        if isinstance(func_or_desc, staticmethod):\n            return FunctionKind.CLASS\n        elif isinstance(func_or_desc, classmethod):\n            return FunctionKind.STATIC")],
+    },
+    "c12_wrap_drops_last_comma_param": {
+        "props": ["C12"],
+        "edits": [(ST, "        if i != len(formatted_params) - 1:\n            line += \",\"", "        if i < len(formatted_params) - 2:\n            line += \",\"")],
+    },
+    "c12_async_lost": {
+        "props": ["C12"],
+        "edits": [(ST, "        is_async = asyncio.iscoroutinefunction(func)", "        is_async = asyncio.iscoroutinefunction(func) and kind == FunctionKind.MODULE")],
+    },
+    "c12_nested_regress": {
+        "props": ["C12"],
+        "edits": [(ST, "            for klass in class_path:\n                if klass not in class_stubs:", "            for klass in [\".\".join(class_path)]:\n                if klass not in class_stubs:")],
+    },
+    "c12_self_annotated": {
+        "props": ["C12"],
+        "edits": [(ST, "        is_self = has_self and arg_idx == 0", "        is_self = has_self and arg_idx == 0 and name == \"self\"")],
+    },
 }
